@@ -167,6 +167,7 @@ struct plan
   long wall_ms, steps, alloc_mb, as_mb;
   int want_log;
   int extra_fds;
+  int untraced_stderr;   /* write(2, ...) is not trapped (verbose runs make millions of them) */
   struct fault faults[MAXF]; int nfaults;
 };
 
@@ -249,6 +250,7 @@ static int plan_read(struct plan *p, FILE *in)
       else if (!strcmp(line, "aslr")) p->aslr = atoi(rest);
       else if (!strcmp(line, "log")) p->want_log = atoi(rest);
       else if (!strcmp(line, "extra_fds")) p->extra_fds = atoi(rest);
+      else if (!strcmp(line, "untraced_stderr")) p->untraced_stderr = atoi(rest);
       else if (!strcmp(line, "limit"))
 	{
 	  char what[32]; long v;
@@ -597,13 +599,22 @@ static const int traced[] = {
 
 static void install_filter(void)
 {
-  struct sock_filter prog[NTRACED + 8];
+  struct sock_filter prog[NTRACED + 16];
   size_t n = 0;
   /* arch check */
   prog[n++] = (struct sock_filter)BPF_STMT(BPF_LD | BPF_W | BPF_ABS, offsetof(struct seccomp_data, arch));
   prog[n++] = (struct sock_filter)BPF_JUMP(BPF_JMP | BPF_JEQ | BPF_K, AUDIT_ARCH_X86_64, 1, 0);
   prog[n++] = (struct sock_filter)BPF_STMT(BPF_RET | BPF_K, SECCOMP_RET_KILL_PROCESS);
   prog[n++] = (struct sock_filter)BPF_STMT(BPF_LD | BPF_W | BPF_ABS, offsetof(struct seccomp_data, nr));
+  if (P.untraced_stderr)
+    {
+      /* if (nr == write && (u32)args[0] == 2) allow; */
+      prog[n++] = (struct sock_filter)BPF_JUMP(BPF_JMP | BPF_JEQ | BPF_K, SYS_write, 0, 3);
+      prog[n++] = (struct sock_filter)BPF_STMT(BPF_LD | BPF_W | BPF_ABS, offsetof(struct seccomp_data, args[0]));
+      prog[n++] = (struct sock_filter)BPF_JUMP(BPF_JMP | BPF_JEQ | BPF_K, 2, 0, 1);
+      prog[n++] = (struct sock_filter)BPF_STMT(BPF_RET | BPF_K, SECCOMP_RET_ALLOW);
+      prog[n++] = (struct sock_filter)BPF_STMT(BPF_LD | BPF_W | BPF_ABS, offsetof(struct seccomp_data, nr));
+    }
   for (size_t i = 0; i < NTRACED; ++i)
     prog[n++] = (struct sock_filter)BPF_JUMP(BPF_JMP | BPF_JEQ | BPF_K, (unsigned)traced[i], (unsigned char)(NTRACED - i), 0);
   prog[n++] = (struct sock_filter)BPF_STMT(BPF_RET | BPF_K, SECCOMP_RET_ALLOW);
